@@ -1,5 +1,5 @@
 #!/bin/bash
-cd /verif/shuttle
+cd "$(dirname "$0")"
 ./build.sh || exit 2
 if [ "$1" = "--replay" ]; then exec ./target/release/ccshuttle replay "$2"; fi
 exec ./target/release/ccshuttle run "${2:-quick}"
